@@ -72,6 +72,7 @@ type Timer struct {
 	owner    string
 	real     *time.Timer
 	th       *Thread
+	tracked  bool
 }
 
 // Sched is one controlled execution
@@ -199,16 +200,51 @@ func (s *Sched) threadExit(t *Thread) {
 	s.back.signal()
 }
 
+var freeWG sync.WaitGroup
+
+// FreeTimeDivisor scales down real sleeps and timers of free-running (pass-through) code
+var FreeTimeDivisor int64 = 1
+
+func freeMain(f func()) {
+	defer freeWG.Done()
+	f()
+}
+
+func freeDur(d time.Duration) time.Duration {
+	if FreeTimeDivisor > 1 && d > time.Millisecond {
+		d = d / time.Duration(FreeTimeDivisor)
+		if d < time.Millisecond {
+			d = time.Millisecond
+		}
+	}
+	return d
+}
+
+// WaitFree waits until every free-running goroutine started through Go has returned
+func WaitFree(timeout time.Duration) bool {
+	done := make(chan struct{})
+	go func() { freeWG.Wait(); close(done) }()
+	select {
+	case <-done:
+		return true
+	case <-time.After(timeout):
+		return false
+	}
+}
+
 // Go is what a rewritten go statement calls
 //
 //go:norace
 func Go(f func()) {
 	s := cur
-	if s == nil || s.running == nil {
-		go f()
+	if s != nil && s.aborting {
 		return
 	}
-	if s.aborting {
+	if Active() == nil {
+		// free-running: a real goroutine, tracked so that the harness can wait for stragglers
+		// before it starts the next controlled execution
+		freeWG.Add(1)
+		go freeMain(f)
 		return
 	}
 	p := s.running
@@ -1031,7 +1067,11 @@ func (s *Sched) FireDue() {
 //go:norace
 func (tm *Timer) Stop() bool {
 	if tm.real != nil {
-		return tm.real.Stop()
+		ok := tm.real.Stop()
+		if ok && tm.tracked {
+			freeWG.Done()
+		}
+		return ok
 	}
 	if Aborting() {
 		return false
@@ -1070,7 +1110,15 @@ func AfterFunc(d time.Duration, f func()) *Timer {
 		if Aborting() {
 			return &Timer{stopped: true, s: cur}
 		}
-		return &Timer{real: time.AfterFunc(d, f)}
+		// free-running: a real timer whose callback is tracked like a goroutine started through Go
+		tm := &Timer{}
+		freeWG.Add(1)
+		tm.real = time.AfterFunc(freeDur(d), func() {
+			defer freeWG.Done()
+			f()
+		})
+		tm.tracked = true
+		return tm
 	}
 	return s.newTimer(d, f, false)
 }
@@ -1084,7 +1132,7 @@ func NewTimer(d time.Duration) *Timer {
 		if Aborting() {
 			return &Timer{stopped: true, s: cur, C: make(chan time.Time, 1)}
 		}
-		rt := time.NewTimer(d)
+		rt := time.NewTimer(freeDur(d))
 		return &Timer{real: rt, C: chanOf(rt)}
 	}
 	return s.newTimer(d, nil, true)
@@ -1111,7 +1159,7 @@ func After(d time.Duration) <-chan time.Time {
 		if Aborting() {
 			return make(chan time.Time)
 		}
-		return time.After(d)
+		return time.After(freeDur(d))
 	}
 	return s.newTimer(d, nil, true).C
 }
@@ -1125,7 +1173,7 @@ func Sleep(d time.Duration) {
 		if Aborting() {
 			return
 		}
-		time.Sleep(d)
+		time.Sleep(freeDur(d))
 		return
 	}
 	t := s.running
